@@ -1,10 +1,11 @@
 #!/bin/bash
-# usage: tools/seedall.sh C03 [C06 ...]   -- test both patches of each listed agent output dir, keep confirmed ones under seeded/
-for P in "$@"; do for i in 1 2; do
- O=/tmp/wt/$P.out
- [ -f $O/patch$i.diff ] || { echo "$P-$i: no patch"; continue; }
- /venv/bin/python /verif/tools/seedtest.py $P $O/patch$i.diff $O/demo$i.py --note $O/note$i.txt --keep $P-$i ${EXTRA:-} | python3 -c "
+# usage: [SRC=/tmp/wt] [TAG=] tools/seedall.sh C03 [C06 ...]  -- test every patchN.diff of each agent output dir; keep confirmed ones under seeded/<Cxx>-<TAG>N
+SRC=${SRC:-/tmp/wt}
+for P in "$@"; do for i in 1 2 3 4; do
+ O=$SRC/$P.out
+ [ -f $O/patch$i.diff ] || continue
+ /venv/bin/python /verif/tools/seedtest.py $P $O/patch$i.diff $O/demo$i.py --note $O/note$i.txt --keep $P-${TAG:-}$i ${EXTRA:-} | python3 -c "
 import json,sys; r=json.load(sys.stdin)
-print('$P-$i', 'confirmed=%s'%r.get('confirmed'), '|', r.get('pinned_tests_with_patch'), '| demo clean:', r.get('demo_on_unchanged'), '| demo mut:', r.get('demo_with_patch'))
+print('$P-${TAG:-}$i', 'confirmed=%s'%r.get('confirmed'), '|', r.get('pinned_tests_with_patch'), '| demo clean:', r.get('demo_on_unchanged'), '| demo mut:', r.get('demo_with_patch'))
 for c,v in r.get('checks',{}).items(): print('   ', c, v['verdict'], (v['lines'][0] if v['lines'] else '')[:200])"
 done; done
